@@ -33,6 +33,9 @@ private:
   inline void put(const double &v, int p) { verif_tape_d[p] = v; }
   template <typename T> inline void put(const T &v, int p) { verif_tape_u[p] = (uint64_t)v; }
 };
+// strings and maps (parameter files) are outside the tape model: writing one is a failed obligation
+template <> inline void RestartWriter::write(const std::string &) { __verif_check(0); }
+template <> inline void RestartWriter::write(const std::map< std::string, std::string > &) { __verif_check(0); }
 class RestartReader {
 public:
   inline RestartReader(const std::string) {}
@@ -48,4 +51,6 @@ private:
   inline double get(double *, int p) { return verif_tape_d[p]; }
   template <typename T> inline T get(T *, int p) { return (T)verif_tape_u[p]; }
 };
+template <> inline std::string RestartReader::read() { __verif_check(0); return std::string(); }
+template <> inline std::map< std::string, std::string > RestartReader::read() { __verif_check(0); return std::map< std::string, std::string >(); }
 #endif
